@@ -473,7 +473,8 @@ where
         let c_ii = covariance_matrix[(i, i)];
         for j in 0..correlation_matrix.ncols() {
             let c_jj = covariance_matrix[(j, j)];
-            let sqrt_c_ii_c_jj = Float::sqrt(c_ii * c_jj);
+            // take the roots separately so that the product cannot overflow
+            let sqrt_c_ii_c_jj = Float::sqrt(c_ii) * Float::sqrt(c_jj);
             correlation_matrix[(i, j)] = covariance_matrix[(i, j)] / sqrt_c_ii_c_jj;
         }
     }
